@@ -151,9 +151,72 @@ def check_wrapper_siblings(ctx, F):
                 dageq.diff(dageq.fingerprint(e[0]), dageq.fingerprint(d[0]))[:300]), key=key, loc=rules.loc(e[0]))
 
 
+def check_weight_wrapper(ctx, F):
+    """Float weights reach the two tree builders through a private ordered wrapper.  For the float constructors to build the
+    same code books as the integer constructors on equal weights (and on each other),
+      (a) the wrapper rejects exactly the weights that cannot be ordered (NaN): its refusing exit is decided by an `is_nan`
+          test (or `x != x`), never by an ordering comparison, which would also turn away ordinary weights such as 0.0;
+      (b) its `Ord` is the numeric order (partial_cmp of the floats), so that equal weights - including 0.0 and -0.0 -
+          compare equal and the tie is broken by the symbol index; the IEEE total order separates them.
+    The wrapper type is found semantically: the crate-local type in the Huffman module that implements `Ord`."""
+    ords = [b for b in F.bodies if b.promoted is None and b.name == 'cmp' and b.impl_trait == 'core::cmp::Ord' and (b.self_adt or '').startswith('symbol::huffman::')]
+    keya, keyb = 'R4/weight-wrapper/rejects-nan-only', 'R4/weight-wrapper/numeric-order'
+    if not ords:
+        ctx.unresolved('R4', 'float weight wrapper', 'symbol::huffman', 'no crate-local Ord impl in the Huffman module (float weights are ordered some other way)', key=keya)
+        return
+    adt = ords[0].self_adt
+    # (b)
+    b = ords[0]
+    ctx.touch(b)
+    _, paths = rules.evaluate(b)
+    callees = {e['callee'] for r in paths or [] for e in r.events if e['kind'] == 'call'}
+    roleb = 'float weights are ordered numerically (equal weights tie)'
+    if any(c.endswith('::total_cmp') for c in callees):
+        ctx.bad('R4', roleb, b.defpath, 'the order is the IEEE total order (total_cmp), which puts -0.0 strictly below 0.0 although the two are equal weights: such symbols are no longer ordered by their index, and the float constructors build a different code book than the integer constructors for the same weights', key=keyb, loc=rules.loc(b))
+    elif any(c.endswith('PartialOrd::partial_cmp') for c in callees) or any(sym.contains(r.ret, lambda x: isinstance(x, tuple) and x and x[0] == 'bin' and x[1].split('.')[0] in ('Lt', 'Le', 'Gt', 'Ge')) for r in paths or [] if r.ret is not None):
+        ctx.ok('R4', roleb, b.defpath, 'cmp is partial_cmp of the wrapped floats', key=keyb)
+    else:
+        ctx.unresolved('R4', roleb, b.defpath, 'cmp uses %s' % sorted(callees)[:3], key=keyb)
+    # (a)
+    rolea = 'the wrapper refuses NaN and nothing else'
+    ctors = [c for c in F.bodies if c.promoted is None and c.self_adt == adt and c.dk == 'AssocFn' and c.impl_trait is None and 'Result<' in (c.raw.get('sig') or '')]
+    if not ctors:
+        ctx.unresolved('R4', rolea, adt, 'no fallible constructor of the wrapper found', key=keya)
+        return
+    for c in ctors:
+        ctx.touch(c)
+        _, paths = rules.evaluate(c)
+        verdict = None
+        n_err = 0
+        for r in paths or []:
+            if r.end != 'return' or rules.ret_shape(r.ret)[0] != 'Err':
+                continue
+            n_err += 1
+            ok = False
+            for t, v, _ in r.preds:
+                tt = t
+                while isinstance(tt, tuple) and tt and tt[0] == 'not':
+                    tt = tt[1]
+                if isinstance(tt, tuple) and tt and tt[0] == 'call' and str(tt[1]).endswith('::is_nan'):
+                    ok = True
+                elif isinstance(tt, tuple) and tt and tt[0] == 'bin' and tt[1].split('.')[0] in ('Ne', 'Eq') and tt[2] == tt[3]:
+                    ok = True
+                elif isinstance(tt, tuple) and tt and tt[0] == 'bin' and tt[1].split('.')[0] in ('Lt', 'Le', 'Gt', 'Ge'):
+                    verdict = ('bad', 'the refusing exit is decided by the ordering comparison `%s`: that is false for NaN but also for ordinary weights (e.g. 0.0), which the integer constructors accept' % sym.show(tt)[:80])
+            if not ok and verdict is None:
+                verdict = ('unresolved', 'refusing exit without an is_nan test')
+        if verdict and verdict[0] == 'bad':
+            ctx.bad('R4', rolea, c.defpath, verdict[1], key=keya, loc=rules.loc(c))
+        elif verdict or not n_err:
+            ctx.unresolved('R4', rolea, c.defpath, verdict[1] if verdict else 'no refusing exit', key=keya)
+        else:
+            ctx.ok('R4', rolea, c.defpath, '%d refusing exit(s), each behind is_nan' % n_err, key=keya)
+
+
 def run(ctx):
     F = ctx.F
     check_wrapper_siblings(ctx, F)
+    check_weight_wrapper(ctx, F)
     check_emit_callbacks(ctx, F)
     eb = [b for b in F.bodies if b.promoted is None and b.name == BUILDER and b.self_adt == ENC]
     db = [b for b in F.bodies if b.promoted is None and b.name == BUILDER and b.self_adt == DEC]
